@@ -4524,6 +4524,11 @@ SDsetdimval_comp(int32 dimid,    /* IN: dimension ID, returned from SDgetdimid *
             && dim->dim00_compat != comp_mode )
     */
     if (dim->dim00_compat != comp_mode) {
+        /* the new mode could not be stored in a file that is open for reading only */
+        if (!(handle->flags & NC_RDWR)) {
+            HGOTO_ERROR(DFE_DENIED, FAIL);
+        }
+
         dim->dim00_compat = comp_mode;
 
         /* make sure it gets reflected in the file */
